@@ -180,13 +180,15 @@ func c03msg(kind string, from sdk.Address, pk crypto.PublicKey) sdk.Msg {
 		return govTypes.MsgChangeParam{FromAddress: from, ParamKey: "auth/MaxMemoCharacters", ParamVal: []byte(`"256"`)}
 	case "dao_transfer":
 		return govTypes.MsgDAOTransfer{FromAddress: from, ToAddress: chain.Addr(3), Amount: sdk.NewInt(5), Action: govTypes.DAOTransferString}
+	case "dao_burn":
+		return govTypes.MsgDAOTransfer{FromAddress: from, ToAddress: chain.Addr(3), Amount: sdk.NewInt(5), Action: govTypes.DAOBurnString}
 	case "upgrade":
 		return govTypes.MsgUpgrade{Address: from, Upgrade: govTypes.NewUpgrade(1000000, "9.9.9")}
 	}
 	panic(kind)
 }
 
-var c03msgKinds = []string{"send", "stake", "unstake", "unjail", "change_param", "dao_transfer", "upgrade"}
+var c03msgKinds = []string{"send", "stake", "unstake", "unjail", "change_param", "dao_transfer", "dao_burn", "upgrade"}
 
 type c03case struct {
 	Name    string `json:"name"`
@@ -438,7 +440,11 @@ func (e *c03env) build(c c03case, view chain.View) c03built {
 			m.ParamVal = []byte(`"255"`)
 			msg = m
 		case govTypes.MsgDAOTransfer:
-			m.Amount = m.Amount.AddRaw(1)
+			if m.Action == govTypes.DAOBurnString {
+				m.ToAddress = chain.Addr(2) // a signed field even where the handler ignores it
+			} else {
+				m.Amount = m.Amount.AddRaw(1)
+			}
 			msg = m
 		case govTypes.MsgUpgrade:
 			m.Upgrade.Height++
@@ -793,7 +799,7 @@ func C03(tier string) int {
 	run.Set("evaluations", int64(len(all)))
 	run.Set("distinct_nontrivial", int64(classes))
 	run.Set("outcome_classes", stats.m)
-	run.Set("rule", "union of complete sub-products: A message kind(7) x signer account kind(ed25519, secp256k1, 2-key multisig, nested multisig) x signing variant (own / other key same type / other type / foreign, swapped, short, duplicate, extra component / other multisig / single key) x key source (attached / from state); A2 unknown and key-less accounts, and an account whose stored key is another party's; B every post-signing mutation (chain id, message field, fee amount, fee denom, memo, memo white space, entropy, signature bit flip, truncation, empty) x message kind x signer kind; C fee (req-1, req, req+1, none) x fee-multiplier setting (default 1; keyed list unjail x1, send x3, stake x2; default 0) x message kind x signer kind; D balance grid; E memo bounds; F replays (after commit: judged; same block: recorded); G fee requirement after a governance change of the multipliers earlier in the same block. distinct_nontrivial = distinct outcome classes (accepted / rejected-by-reason) observed")
+	run.Set("rule", "union of complete sub-products: A message kind(8) x signer account kind(ed25519, secp256k1, 2-key multisig, nested multisig) x signing variant (own / other key same type / other type / foreign, swapped, short, duplicate, extra component / other multisig / single key) x key source (attached / from state); A2 unknown and key-less accounts, and an account whose stored key is another party's; B every post-signing mutation (chain id, message field, fee amount, fee denom, memo, memo white space, entropy, signature bit flip, truncation, empty) x message kind x signer kind; C fee (req-1, req, req+1, none) x fee-multiplier setting (default 1; keyed list unjail x1, send x3, stake x2; default 0) x message kind x signer kind; D balance grid; E memo bounds; F replays (after commit: judged; same block: recorded); G fee requirement after a governance change of the multipliers earlier in the same block. distinct_nontrivial = distinct outcome classes (accepted / rejected-by-reason) observed")
 	run.Sample(c03case{Name: "A", Msg: "send", Signer: "ed25519", Variant: "other-same-type", KeySrc: "attached", Mut: "none", Fee: "req", Memo: "empty", Replay: "first", FeeMult: "default1"})
 	run.Sample(c03case{Name: "C", Msg: "send", Signer: "multisig", Variant: "own", KeySrc: "attached", Mut: "none", Fee: "req-1", Memo: "empty", Replay: "first", FeeMult: "type3"})
 	run.Assume("signature validity is decided by Tendermint's ed25519/secp256k1 primitives and the positional N-of-N rule; signatures are made and judged over the harness's own rendering of the documented sign bytes (key-sorted JSON of chain id, entropy, fee, memo, message sign bytes), not over the repository's StdSignBytes",
